@@ -132,6 +132,17 @@ def oracle(ctx):
             if mp is not None and ma is not None and not (float(mp) + XKMPER - 40.0 <= r <= float(ma) + XKMPER + 40.0):
                 ctx.violation("distance_band_model", case, r, "[%.3f, %.3f] km (the model's perigee/apogee heights + %.3f, +-40 km)" % (
                     float(mp) + XKMPER - 40, float(ma) + XKMPER + 40, XKMPER), site="_SGDP4Base.perigee/apogee")
+            # the same derivative through ARRAY-valued times on a sub-second grid (one call for t - h, t, t + h)
+            try:
+                hq = ctx.rng.choice([250000, 125000, 500000])          # microseconds
+                arr3 = np.array([t - np.timedelta64(hq, "us"), t, t + np.timedelta64(hq, "us")])
+                pa, va = o.get_position(arr3, normalize=False)
+                dva = float(np.linalg.norm((np.asarray(pa)[:, 2] - np.asarray(pa)[:, 0]) / (2 * hq / 1e6) - np.asarray(va)[:, 1])) / speed
+                if dva > 0.0015:
+                    ctx.violation("velocity_vs_derivative", dict(case, array_times=True, h_us=hq), {"rel": dva}, "<= 0.15 % of the speed (array-valued times)",
+                                  site="Orbital.get_position")
+            except Exception:  # noqa
+                pass
             # the default (normalised) output is the same state in units of 6378.135 km and 106.30225 km/s
             try:
                 pn, vn = o.get_position(t)
@@ -144,10 +155,11 @@ def oracle(ctx):
                 pass
             hvec = np.cross(p, v)
             inc = math.degrees(math.acos(max(-1.0, min(1.0, float(hvec[2] / np.linalg.norm(hvec))))))
-            di = abs(inc - float(o.tle.inclination))
+            tle_incl = float(l2[8:16])        # the inclination PRINTED in the element set (columns 9-16 of line 2)
+            di = abs(inc - tle_incl)
             worst["incl"] = max(worst["incl"], di)
             if di > 0.05:
-                ctx.violation("plane_inclination", case, inc, "TLE inclination %.4f within 0.05 deg" % o.tle.inclination, site="Orbital.get_position")
+                ctx.violation("plane_inclination", case, inc, "TLE inclination %.4f within 0.05 deg" % tle_incl, site="Orbital.get_position")
             energy = speed ** 2 / 2 - MU / r
             ref = -MU / (2 * a_km)
             de = abs(energy - ref) / abs(ref)
@@ -225,6 +237,11 @@ def replay(ctx, case):
         speed = float(np.linalg.norm(v))
         r = float(np.linalg.norm(p))
         bad = float(np.linalg.norm((p1 - p0) / 2.0 - v)) / speed > 0.0015
+        if inp.get("array_times"):
+            hq = inp["h_us"]
+            arr3 = np.array([t - np.timedelta64(hq, "us"), t, t + np.timedelta64(hq, "us")])
+            pa, va = o.get_position(arr3, normalize=False)
+            bad = bad or float(np.linalg.norm((np.asarray(pa)[:, 2] - np.asarray(pa)[:, 0]) / (2 * hq / 1e6) - np.asarray(va)[:, 1])) / speed > 0.0015
         pn, vn = o.get_position(t)
         bad = bad or float(np.linalg.norm(v - np.asarray(vn) * 106.30225)) / speed > 1e-9
         mp, ma = getattr(o._sgdp4, "perigee", None), getattr(o._sgdp4, "apogee", None)
@@ -233,7 +250,7 @@ def replay(ctx, case):
         a_km = float(o.orbit_elements.semi_major_axis) * XKMPER
         hvec = np.cross(p, v)
         inc = math.degrees(math.acos(max(-1.0, min(1.0, float(hvec[2] / np.linalg.norm(hvec))))))
-        bad = bad or abs(inc - float(o.tle.inclination)) > 0.05
+        bad = bad or abs(inc - float(inp["line2"][8:16])) > 0.05
         bad = bad or abs((speed ** 2 / 2 - MU / r) - (-MU / (2 * a_km))) / abs(MU / (2 * a_km)) > 0.01
         print("violated" if bad else "holds")
         return 1 if bad else 0
